@@ -437,6 +437,8 @@ def jobs_for(prop, tier):
         j = j + [{"id": "scalex-invalidate-burst", "argv": ["scalex", "invalidate-burst"]}]
     if prop in ("C08", "C10", "C04", "C03"):
         j = j + [{"id": "scalex-hugeweights", "argv": ["scalex", "hugeweights"]}]
+    if prop in ("C13", "C14"):
+        j = j + [{"id": "scalex-sketchgrow", "argv": ["scalex", "sketchgrow"]}]
     if prop in ("C01", "C07", "C12", "C13", "C10", "C11"):
         j = j + scripted()
     # long scripted histories through the same per-step oracles (thresholds beyond any
@@ -455,7 +457,7 @@ def jobs_for(prop, tier):
     # program schedule cap, reported when hit)
     gen = sched("gen", tier, 2, 16, 20000 if thorough else 1500)
     if prop == "C02":
-        j = sched("c02", tier, b, 16) + sched("c02w", tier, b, 8) + sched("c02x", tier, b, 4) + sched("c02t", tier, b, 8) + sched("c07", tier, b, 2) + sched("c16", tier, b, 2) + loom + gen
+        j = sched("c02", tier, b, 16) + sched("c02w", tier, b, 8) + sched("c02x", tier, b, 4) + sched("c02t", tier, b, 8) + sched("c07", tier, b, 2) + sched("c16", tier, b, 2) + loom + gen + sched("fine", tier, b, 4)
     elif prop == "C09":
         j = sched("c09", tier, 2 if thorough else 1, 8, 20000) + sched("c02", tier, 2, 16) + sched("c07", tier, 2, 2) + sched("rdfull", tier, 1, 2, 20000) + gen
         # a single thread under the single-thread scheduler (E1): a lock the caller holds
@@ -476,6 +478,8 @@ def jobs_for(prop, tier):
                                   dU=6 if thorough else 5, dS=6 if thorough else 5))
     elif prop in ("C03", "C08", "C10", "C11"):
         j = j + sched("c02", tier, 2, 16) + sched("c02w", tier, 2, 8) + sched("c02x", tier, 2, 4) + gen
+        # scheduling also at the loads of an entry's shared flags and weight
+        j = j + sched("fine", tier, b, 4)
         if prop == "C08":
             j = j + sched("rdfull", tier, 1, 2, 20000)
         if prop == "C10":
@@ -538,7 +542,7 @@ EXPLAIN = {
 }
 
 
-SCHED = ("stateless preemption-bounded depth-first exploration of thread schedules of the REAL sync cache: real OS threads under a baton-passing scheduler that is called at cfg-guarded switch, blocking and yield points; every schedule with at most the stated number of preemptions of every program of the enumerated families is executed (counted under 'schedules' and as transitions; 'states' counts programs for these jobs); each execution's call/return history is checked against the register-with-loss specification and its quiescent end state against structure, counters, drop tracking, final-value and refill clauses; deadlock = no enabled thread, livelock = only spinners / event budget.")
+SCHED = ("stateless preemption-bounded depth-first exploration of thread schedules of the REAL sync cache: real OS threads under a baton-passing scheduler that is called at cfg-guarded switch, blocking and yield points; every schedule with at most the stated number of preemptions of every program of the enumerated families is executed (counted under 'schedules' and as transitions; 'states' counts programs for these jobs); each execution's call/return history is checked against the register-with-loss specification and its quiescent end state against structure, counters, drop tracking, final-value and refill clauses; deadlock = no enabled thread, livelock = only spinners / event budget. The maintenance mutex is behind a cfg-guarded wrapper (lock = blocking point, try_lock = switch point followed by the real attempt); sync() must be a barrier for every write queued before it was called; the 'fine' family also schedules at the loads of an entry's shared flags and weight.")
 
 
 def nodebug(joblist):
@@ -557,6 +561,10 @@ def explain(prop, tier):
     base = _explain(prop, tier)
     if prop in ("C03", "C04", "C08", "C10"):
         base += " SCALE: seven fixed scenarios on caches with u32 keys (one update needing 799 evictions in a full cache of 1000; 1000 consecutive invalidations; 70000 entries of weight u32::MAX), each on a helper thread with a deadline, followed by the physical clauses (resident weight <= capacity, counters == held, nothing that fits is missing, no panic, the calls return)."
+    if prop in ("C13", "C14"):
+        base += " SCALE: six fixed scenarios (both caches, both housekeeping regimes, capacities 1000 and 3000 with a unit weigher): lookups recorded when the cache is half full must still count when it is full - estimate >= recorded lookups after every maintenance run, the popularity table allocated once, the popular newcomer admitted."
+    if prop in ("C01", "C03", "C04", "C06", "C08", "C10", "C11"):
+        base += " CALLBACKS: spaces whose alphabet contains calls in which the caller's own callback panics and the caller catches the panic (by-value weigher on one value, predicate of invalidate_entries_if on one key, Clone of a value inside insert / get of the concurrent cache); every clause must hold afterwards, a get whose clone panicked is not an access, and entries the predicate had not selected are untouched."
     if prop in ("C03", "C04", "C06", "C07", "C08", "C10", "C11", "C16"):
         base += " SCHEDULES: " + SCHED
     return base
